@@ -693,33 +693,17 @@ macro_rules! msg {
     };
 }
 
-fn opaque_cuts<const OP: u8, const T: u16>() -> [Out; 5] {
-    let h: [u8; 12] = kani::any();
-    let d: [u8; 11] = kani::any();
-    let b = msg![h;
-        0, // owner: root
-        (T >> 8) as u8, T as u8, // TYPE
-        d[0], d[1], // CLASS
-        d[2], d[3], d[4], d[5], // TTL
-        d[6], d[7], // RDLENGTH
-        d[8], d[9], d[10], // RDATA (as far as RDLENGTH says)
-    ];
-    let o12 = read_rr_cut::<OP, L_OPAQUE>(&b[..12]);
-    read_rr_cut::<OP, L_OPAQUE>(&b[..13]);
-    read_rr_cut::<OP, L_OPAQUE>(&b[..14]);
-    read_rr_cut::<OP, L_OPAQUE>(&b[..15]);
-    read_rr_cut::<OP, L_OPAQUE>(&b[..16]);
-    read_rr_cut::<OP, L_OPAQUE>(&b[..17]);
-    read_rr_cut::<OP, L_OPAQUE>(&b[..18]);
-    read_rr_cut::<OP, L_OPAQUE>(&b[..19]);
-    read_rr_cut::<OP, L_OPAQUE>(&b[..20]);
-    let o21 = read_rr_cut::<OP, L_OPAQUE>(&b[..21]);
-    read_rr_cut::<OP, L_OPAQUE>(&b[..22]);
-    let o23 = read_rr_cut::<OP, L_OPAQUE>(&b[..23]);
-    read_rr_cut::<OP, L_OPAQUE>(&b[..24]);
-    let o25 = read_rr_cut::<OP, L_OPAQUE>(&b[..25]);
-    let o26 = read_rr_cut::<OP, L_OPAQUE>(&b[..26]);
-    [o12, o21, o23, o25, o26]
+macro_rules! opaque_msg {
+    ($h:ident, $d:ident, $t:expr, $rh:expr, $rl:expr) => {
+        msg![$h;
+            0, // 12: owner: root
+            ($t >> 8) as u8, $t as u8, // 13: TYPE
+            $d[0], $d[1], // 15: CLASS
+            $d[2], $d[3], $d[4], $d[5], // 17: TTL
+            $rh, $rl, // 21: RDLENGTH
+            $d[6], $d[7], $d[8], // 23: RDATA (as far as RDLENGTH says)
+        ]
+    };
 }
 
 // @harness props=C15 panics=C15,C01 kani="--no-assertion-reach-checks" tier=quick mem=4 t=900 fn="Reader::read_rr,Rdata::read,helpers::prepare_to_read_rdata"
@@ -729,27 +713,64 @@ fn opaque_cuts<const OP: u8, const T: u16>() -> [Out; 5] {
 #[kani::unwind(6)]
 #[kani::stub(arrayvec::ArrayVec::try_extend_from_slice, try_extend_model)]
 fn c15_read_rr_opaque_sk() {
-    let [o12, o21, _o23, o25, o26] = opaque_cuts::<READ, 10>();
+    let h: [u8; 12] = kani::any();
+    let d: [u8; 11] = kani::any();
+    let b = opaque_msg!(h, d, 10u16, d[9], d[10]);
+    let o12 = read_rr_cut::<READ, L_OPAQUE>(&b[..12]);
+    read_rr_cut::<READ, L_OPAQUE>(&b[..13]);
+    read_rr_cut::<READ, L_OPAQUE>(&b[..14]);
+    read_rr_cut::<READ, L_OPAQUE>(&b[..15]);
+    read_rr_cut::<READ, L_OPAQUE>(&b[..16]);
+    read_rr_cut::<READ, L_OPAQUE>(&b[..17]);
+    read_rr_cut::<READ, L_OPAQUE>(&b[..18]);
+    read_rr_cut::<READ, L_OPAQUE>(&b[..19]);
+    read_rr_cut::<READ, L_OPAQUE>(&b[..20]);
+    let o21 = read_rr_cut::<READ, L_OPAQUE>(&b[..21]);
+    read_rr_cut::<READ, L_OPAQUE>(&b[..22]);
+    read_rr_cut::<READ, L_OPAQUE>(&b[..23]);
+    read_rr_cut::<READ, L_OPAQUE>(&b[..24]);
+    let o25 = read_rr_cut::<READ, L_OPAQUE>(&b[..25]);
+    let o26 = read_rr_cut::<READ, L_OPAQUE>(&b[..26]);
     kani::cover!(
         !o12.ok && !o12.late_err && o21.late_err && o25.late_err && o26.ok && o26.to_eom && o26.ttl_hi,
         "at the end: refused; owner within 8 octets of the end: refused; RDLENGTH past the end: refused; 3 RDATA octets and TTL bit 31 set: read"
     );
 }
 
+// A symbolic RDLENGTH makes peek_rr return on two paths; where they join, the
+// PeekRr's stored offsets stop being constants for CBMC, TYPE becomes
+// symbolic and Rdata::read is explored for every type (measured: no result in
+// 15 min).  RDLENGTH is therefore concrete here and varied call by call.
 // @harness props=C15 panics=C15,C01 kani="--no-assertion-reach-checks" tier=quick mem=4 t=900 fn="Reader::peek_rr,PeekRr::parse,PeekRr::take_owner,Rdata::read"
-//   bound="12 symbolic header octets + root owner + TYPE 65280 (private use) + symbolic CLASS, TTL, RDLENGTH (all 16 bits) + 3 symbolic RDATA octets, cut at each length 12..=26; unwind 6"
-//   stubs="S7" sym="h:[u8;12], class, ttl, rdlength, rdata:[u8;3]"
+//   bound="12 symbolic header octets + root owner + TYPE 65280 (private use) + symbolic CLASS, TTL + RDLENGTH r + 3 symbolic RDATA octets: r = 3 on the message cut at 12, 13, 16, 20, 21, 22, 23, 25, 26; r in {0, 1, 2, 4, 259} on the whole 26-octet message; unwind 6"
+//   stubs="S7" sym="h:[u8;12], class, ttl, rdata:[u8;3]"
 #[kani::proof]
 #[kani::unwind(6)]
 #[kani::stub(arrayvec::ArrayVec::try_extend_from_slice, try_extend_model)]
 fn c15_peek_parse_opaque_sk() {
-    let [_o12, o21, o23, _o25, o26] = opaque_cuts::<PEEK_PARSE, 0xff00>();
+    let h: [u8; 12] = kani::any();
+    let d: [u8; 9] = kani::any();
+    let b = opaque_msg!(h, d, 0xff00u16, 0, 3);
+    let o12 = read_rr_cut::<PEEK_PARSE, L_OPAQUE>(&b[..12]);
+    read_rr_cut::<PEEK_PARSE, L_OPAQUE>(&b[..13]);
+    read_rr_cut::<PEEK_PARSE, L_OPAQUE>(&b[..16]);
+    read_rr_cut::<PEEK_PARSE, L_OPAQUE>(&b[..20]);
+    let o21 = read_rr_cut::<PEEK_PARSE, L_OPAQUE>(&b[..21]);
+    read_rr_cut::<PEEK_PARSE, L_OPAQUE>(&b[..22]);
+    read_rr_cut::<PEEK_PARSE, L_OPAQUE>(&b[..23]);
+    let o25 = read_rr_cut::<PEEK_PARSE, L_OPAQUE>(&b[..25]);
+    let o26 = read_rr_cut::<PEEK_PARSE, L_OPAQUE>(&b[..26]);
+    let l0 = read_rr_cut::<PEEK_PARSE, L_OPAQUE>(&opaque_msg!(h, d, 0xff00u16, 0, 0));
+    let l1 = read_rr_cut::<PEEK_PARSE, L_OPAQUE>(&opaque_msg!(h, d, 0xff00u16, 0, 1));
+    let l2 = read_rr_cut::<PEEK_PARSE, L_OPAQUE>(&opaque_msg!(h, d, 0xff00u16, 0, 2));
+    let l4 = read_rr_cut::<PEEK_PARSE, L_OPAQUE>(&opaque_msg!(h, d, 0xff00u16, 0, 4));
+    let l259 = read_rr_cut::<PEEK_PARSE, L_OPAQUE>(&opaque_msg!(h, d, 0xff00u16, 1, 3));
     kani::cover!(
-        o21.late_err && o23.ok && o23.to_eom && o26.ok && !o26.to_eom,
-        "owner within 8 octets of the end: refused; empty RDATA at the end of the message and before further octets: read"
+        !o12.ok && !o12.late_err && o21.late_err && o25.late_err && o26.ok && o26.to_eom && o26.ttl_hi && l0.ok && !l0.has_rdata
+            && l1.ok && l2.ok && !l2.to_eom && l4.late_err && l259.late_err,
+        "at the end, owner within 8 octets of the end, RDLENGTH past the end: refused; RDLENGTH 0..=3 parsed"
     );
 }
-
 
 // ---- name-bearing RDATA ------------------------------------------------------------
 //
